@@ -358,6 +358,7 @@ type world struct {
 
 	maxDt         time.Duration
 	everPublished map[string]int
+	dbDown        bool
 	pastSummaries string
 	deliveryStep  bool
 
@@ -594,6 +595,9 @@ type storeChange struct {
 
 func (w *world) storeDiff() []storeChange {
 	var ch []storeChange
+	if w.dbDown {
+		return nil
+	}
 	var ids []string
 	for k := range w.universe {
 		ids = append(ids, k)
@@ -737,7 +741,33 @@ func (w *world) runStep(i int, st simkit.Step) {
 	case "tick":
 		w.doTicks(st)
 		return
+	case "dbdown":
+		// storage fault: the badger handle behind the node's store is closed, every store call fails
+		// until "dbup" (the *db.Database the processor holds stays the same object)
+		if !w.dbDown {
+			if err := storeInner(w.db).Close(); err != nil {
+				w.res.HarnessErr = "dbdown: " + err.Error()
+				w.dead = true
+				return
+			}
+			w.dbDown = true
+			w.stats.Fault("store-unavailable")
+		}
+	case "dbup":
+		if w.dbDown {
+			bdb, err := badger.Open(badger.DefaultOptions(w.dir).WithNumCompactors(0).WithLogger(nil))
+			if err != nil {
+				w.res.HarnessErr = "dbup: " + err.Error()
+				w.dead = true
+				return
+			}
+			setStoreInner(w.db, bdb)
+			w.dbDown = false
+		}
 	case "restart":
+		if w.dbDown {
+			break
+		}
 		w.stopProcessor()
 		w.db.Close()
 		dbn, err := openStore(w.dir)
@@ -1225,7 +1255,7 @@ func (w *world) checkPublication(st simkit.Step, vb []byte) {
 		w.violate("C02", "publication-from-non-delivery-step", "step %s published a VAA", st)
 	}
 	// every publication must also be in the store
-	if id := m.desc.idKey(); !bytes.Equal(w.store[id], vb) {
+	if id := m.desc.idKey(); !w.dbDown && !bytes.Equal(w.store[id], vb) {
 		// storeDiff ran before; the store must hold exactly these bytes now
 		w.violate("C02", "published-not-stored", "published VAA %s is not what the store holds", id)
 	}
@@ -1504,6 +1534,16 @@ func (w *world) forget(h string) {
 // simulated hour into 288 000 timer events (a 60-day C14 horizon would take a quarter of an
 // hour). db.Open hard-codes its options, so the *db.Database is assembled around a badger handle
 // opened here. Compaction never triggers with VAA-sized workloads, so the behaviour is the same.
+func storeInner(d *db.Database) *badger.DB {
+	f := reflect.ValueOf(d).Elem().FieldByName("db")
+	return reflect.NewAt(f.Type(), unsafe.Pointer(f.UnsafeAddr())).Elem().Interface().(*badger.DB)
+}
+
+func setStoreInner(d *db.Database, b *badger.DB) {
+	f := reflect.ValueOf(d).Elem().FieldByName("db")
+	reflect.NewAt(f.Type(), unsafe.Pointer(f.UnsafeAddr())).Elem().Set(reflect.ValueOf(b))
+}
+
 func openStore(dir string) (*db.Database, error) {
 	bdb, err := badger.Open(badger.DefaultOptions(dir).WithNumCompactors(0).WithLogger(nil))
 	if err != nil {
@@ -1581,7 +1621,9 @@ func (h procHarness) execOnce(p *simkit.Program) (*simkit.Result, *world) {
 		}
 		res.SimNs = int64(time.Since(w.start))
 		w.stopProcessor()
-		w.db.Close()
+		if !w.dbDown {
+			w.db.Close()
+		}
 	}
 	func() {
 		defer func() {
